@@ -473,7 +473,7 @@ theorem trt (u : Bytes → Bool) : ∀ c : Carrier, TRT u c
       simp only [viewOf] at hb
       simp only [deserCarrier]
       exact seq_body_rt u c e xs body collectSet (collectSet_canon xs hrt.2)
-        (fun y hy cell hc => item_of_trt u c e y (trt u c e y (hwt y hy) htc (hrt.1 y hy)) cell hc) hb
+        (fun y hy cell hc => item_of_trt u c e y (trt u c e y (hwt y hy) htc (hrt.1.2 y hy)) cell hc) hb
     | native n => simp [tcheck] at htc
     | list e => simp [tcheck] at htc
     | vector e d => simp [tcheck] at htc
@@ -488,7 +488,7 @@ theorem trt (u : Bytes → Bool) : ∀ c : Carrier, TRT u c
     | map kt vt =>
       simp only [tcheck, Bool.and_eq_true] at htc
       simp only [rtOk, List.all_eq_true, Bool.and_eq_true] at hrt
-      obtain ⟨hrt, hcanon⟩ := hrt
+      obtain ⟨⟨_, hrt⟩, hcanon⟩ := hrt
       refine ⟨by simp [embed], fun h => by simp [embed] at h, ?_⟩
       intro body hb _
       simp only [embed] at hb
